@@ -10,7 +10,8 @@
   The *datatypes* of workbooks (`Fx`, `Cell`, `Range`, `MState`, `Sem`, `Res`) and the three dictionary
   accessors `MState.cell?` / `range?` / `resolve` are the ones declared in `Model/Evaluator.lean` — that
   import is for these only; none of its evaluation functions (`evalCell`, `evalFx`, `evalRef`,
-  `evaluate`, `fresh`, `erase`, stores, contexts, `isEmptyValue`, `toArray`) is used here; from
+  `evaluate`, `fresh`, `erase`, stores, contexts, `isEmptyValue`, `toArray`, `argItems`, `argVerdict`) is
+  used here; from
   `Model/C04.lean` only the datatype `Op` of API calls is used.  The empty-cell cut-off of the range
   walk (`MAX_EMPTY`) is a parameter `K`: the properties hold for any.
 -/
@@ -28,6 +29,14 @@ def isEmpty : V → Bool
 def scalar : V → S
   | .s x => x
   | .arr _ => .err .value
+
+/-- the elements of an argument of AND / OR: a scalar is one element, a range contributes its cells -/
+def elems : V → List S
+  | .s x => [x]
+  | .arr rows => rows.flatten
+
+/-- the elements AND / OR look at: blanks and empty text are ignored -/
+def nonBlank (xs : List S) : List S := xs.filter fun x => !isEmpty (.s x)
 
 /-- one row of a range: `cv` gives the value of a cell; a cell is dropped (and the row ends) once more
     than `maxEmpty` consecutive empty cells have been seen -/
@@ -98,10 +107,14 @@ def scVal (K : Nat) (sem : Sem) (m : MState) (cv : Addr → Res) : Bool → List
   | isAnd, a :: rest =>
     (match fxVal K sem m cv a with
      | .val v =>
-       if isEmpty v then scVal K sem m cv isAnd rest else
-       (match sem.truth v with
-        | none => .val v
-        | some b => if b = isAnd then scVal K sem m cv isAnd rest else .val (.s (.bool b)))
+       -- an error among the elements of the argument is the result (the leftmost one)
+       (match (elems v).find? (fun x => (sem.truth (.s x)).isNone) with
+        | some x => .val (.s x)
+        | none =>
+          -- otherwise the first non-blank element whose truth value is not the neutral one decides
+          (match (nonBlank (elems v)).findSome? (fun x => (sem.truth (.s x)).filter (· != isAnd)) with
+           | some b => .val (.s (.bool b))
+           | none => scVal K sem m cv isAnd rest))
      | r => r)
 end
 
